@@ -100,15 +100,35 @@ def unbiased_acf(x, maxlag):
     return np.array([np.sum(x[k:] * np.conj(x[:n - k])) / (n - k) for k in range(maxlag + 1)])
 
 
+def narrowband(rng, n, cplx):
+    """the classical narrow-band AR(4) test process (two close spectral peaks, poles of radius 0.98) driven through a
+    first-order MA: fitted with P = Q >= 6 its modified Yule-Walker system is full rank but ill conditioned"""
+    poly = np.array([1, -2.7607, 3.8106, -2.6535, 0.9238])
+    e = rng.randn(n + 200) + (1j * rng.randn(n + 200) if cplx else 0)
+    e = e + 0.5 * np.concatenate(([0], e[:-1]))
+    x = np.zeros(n + 200, dtype=complex if cplx else float)
+    for i in range(4, n + 200):
+        x[i] = e[i] - np.dot(poly[1:], x[i - 4:i][::-1])
+    return x[200:]
+
+
 def obs_events(chk):
     from spectrum import ma, arma_estimate
     rng = np.random.RandomState(1500 + chk.seed)
     batch = obs.Batch('ObsC15')
     reps = 25 if chk.tier == 'quick' else 250
-    for rep in range(reps):
+    nb_reps = 40 if chk.tier == 'quick' else 200
+    for rep in range(reps + nb_reps):
         N = int(rng.choice([16, 32, 64, 128, 256]))
         cplx = bool(rng.randint(2))
-        x = zoo.signal(rng, N, cplx, ['noise', 'arma'][rep % 2])
+        narrow = rep >= reps
+        if narrow:
+            # narrow-band AR(4) process fitted with too high an order: ill-conditioned (but full rank) modified
+            # Yule-Walker systems on the P > 4 side of the solver switch
+            N = 256
+            x = narrowband(rng, N, cplx)
+        else:
+            x = zoo.signal(rng, N, cplx, ['noise', 'arma'][rep % 2])
         # ma
         Mo = int(rng.randint(2, min(N - 1, 20) + 1))
         Q = int(rng.randint(1, Mo))
@@ -127,6 +147,9 @@ def obs_events(chk):
         P = int(rng.choice([1, 2, 3, 4, 5, 6, 8]))
         Qa = P if rep % 3 else int(rng.randint(1, P + 1))
         lag = int(rng.randint(max(Qa, 2 * P), max(Qa, 2 * P) + 10))
+        if narrow:
+            P = Qa = int(rng.choice([6, 8, 10]))
+            lag = 2 * P + int(rng.choice([0, 1, 2]))
         if not (lag + 2 * P - Qa <= N and 2 * Qa < N - P):
             continue
         ev = {'ev': 'arma', 'N': N, 'P': P, 'Q': Qa, 'lag': lag, 'cplx': cplx}
@@ -147,10 +170,24 @@ def obs_events(chk):
                 y1 = np.array([Y[n] for n in rows])
                 resid = y1 + X @ a[:P]
                 ev['myw_dev'] = obs.q(np.max(np.abs(X.conj().T @ resid)) / max(float(np.real(np.vdot(y1, y1))), 1e-300))
+                # least squares = no other coefficient vector has a smaller residual (insensitive to conditioning,
+                # unlike a comparison of coefficients)
+                ls = np.linalg.lstsq(-X, y1, rcond=None)[0]
+                r_ls = y1 + X @ ls
+                gap = float(np.real(np.vdot(resid, resid) - np.vdot(r_ls, r_ls))) / max(float(np.real(np.vdot(y1, y1))), 1e-300)
+                ev['gap_dev'] = obs.q(max(gap, 0.0))
+                # the least-squares solution is unique (full rank): the coefficients themselves, to the accuracy the
+                # conditioning of the system allows (cond * 1e-12 relative; systems with cond > 1e9 are not compared)
+                cond = float(np.linalg.cond(X))
+                ev['cond_k'] = obs.q(cond, 1e3)
+                ev['coef_dev'] = obs.q(np.linalg.norm(a[:P] - ls) / max(np.linalg.norm(ls), 1e-300))
             else:
                 ev['myw_dev'] = 0
+                ev['gap_dev'] = 0
+                ev['cond_k'] = 0
+                ev['coef_dev'] = 0
         else:
-            ev.update(len_ar=0, len_ma=0, maxzero_ppm=0, rho_ok=False, myw_dev=0)
+            ev.update(len_ar=0, len_ma=0, maxzero_ppm=0, rho_ok=False, myw_dev=0, gap_dev=0, cond_k=0, coef_dev=0)
             ev['exc'] = repr(res)[:100]
         batch.add(ev, {'N': N, 'P': P, 'Q': Qa, 'lag': lag, 'seed': chk.seed, 'rep': rep})
     # class clause
